@@ -86,6 +86,20 @@ def _elim_returns(stmts: List[ast.stmt], ret: str) -> Tuple[List[ast.stmt], bool
     return out, False
 
 
+def _definitely_returns(stmts) -> bool:
+    """every path through the statement list ends in return / raise"""
+    for st in stmts:
+        if isinstance(st, (ast.Return, ast.Raise)):
+            return True
+        if isinstance(st, ast.If) and st.orelse and _definitely_returns(st.body) and _definitely_returns(st.orelse):
+            return True
+        if isinstance(st, ast.While) and isinstance(st.test, ast.Constant) and st.test.value and not any(isinstance(x, ast.Break) for x in ast.walk(st)):
+            return True
+        if isinstance(st, ast.Try) and st.finalbody and _definitely_returns(st.finalbody):
+            return True
+    return False
+
+
 def _maybe_returns(stmts) -> bool:
     return _contains_return(stmts)
 
@@ -125,9 +139,42 @@ def _returns_to_breaks(loop, ret: str, depth: int):
         raise _Unsupported("loop with else")
 
 
+class _LamSubst(ast.NodeTransformer):
+    def __init__(self, mapping: Dict[str, ast.expr]):
+        self.mapping = mapping
+
+    def visit_Name(self, n: ast.Name):
+        if n.id in self.mapping and isinstance(n.ctx, ast.Load):
+            return ast.copy_location(copy.deepcopy(self.mapping[n.id]), n)
+        return n
+
+    def visit_Lambda(self, n: ast.Lambda):
+        bound = {a.arg for a in n.args.args + n.args.kwonlyargs + n.args.posonlyargs}
+        n.body = _LamSubst({k: v for k, v in self.mapping.items() if k not in bound}).visit(n.body)
+        return n
+
+
 class _Renamer(ast.NodeTransformer):
-    def __init__(self, mapping: Dict[str, ast.expr], prefix: str, locals_: set):
+    def __init__(self, mapping: Dict[str, ast.expr], prefix: str, locals_: set, lambdas: Optional[Dict[str, ast.Lambda]] = None):
         self.mapping, self.prefix, self.locals = mapping, prefix, locals_
+        self.lambdas = lambdas or {}
+
+    def visit_Call(self, n: ast.Call):
+        self.generic_visit(n)
+        f = n.func
+        if isinstance(f, ast.Name) and f.id in self.lambdas:
+            # beta-reduction of a lambda handed to the helper: its free names belong to the caller and are left alone
+            lam = self.lambdas[f.id]
+            ps = [a.arg for a in lam.args.args]
+            body = copy.deepcopy(lam.body)
+            return ast.copy_location(_LamSubst(dict(zip(ps, n.args))).visit(body), n)
+        return n
+
+    def visit_IfExp(self, n: ast.IfExp):
+        self.generic_visit(n)
+        if isinstance(n.test, ast.Constant):
+            return n.body if n.test.value else n.orelse
+        return n
 
     def visit_Name(self, n: ast.Name):
         if n.id in self.mapping and isinstance(n.ctx, ast.Load):
@@ -154,6 +201,23 @@ def _local_names(fn: ast.FunctionDef) -> set:
         elif isinstance(x, ast.ExceptHandler) and x.name:
             out.add(x.name)
     return out
+
+
+def _only_called(fn: ast.FunctionDef, p: str, lam: ast.Lambda) -> bool:
+    """the parameter is used in the helper only as `p(a, b, ...)` with as many positional arguments as the lambda takes, each argument
+    a name / constant / attribute chain (so substituting it, possibly several times, into the lambda body changes nothing)"""
+    a = lam.args
+    if a.vararg or a.kwarg or a.kwonlyargs or a.defaults or a.posonlyargs:
+        return False
+    n = len(a.args)
+    called = set()
+    for x in ast.walk(fn):
+        if isinstance(x, ast.Call) and isinstance(x.func, ast.Name) and x.func.id == p:
+            if x.keywords or len(x.args) != n or not all(_simple_arg(y) for y in x.args):
+                return False
+            called.add(id(x.func))
+    uses = [x for x in ast.walk(fn) if isinstance(x, ast.Name) and x.id == p]
+    return bool(called) and all(id(x) in called for x in uses)
 
 
 def _simple_arg(e: ast.expr) -> bool:
@@ -201,6 +265,7 @@ class _Inliner:
     def __init__(self, tree: ast.Module):
         self.tree = tree
         self.counter = 0
+        self.cur_fn: Optional[ast.FunctionDef] = None
         self.helpers: Dict[Tuple[Optional[str], str], _Helper] = {}
         for st in tree.body:
             if isinstance(st, ast.FunctionDef) and _is_private(st.name):
@@ -215,10 +280,24 @@ class _Inliner:
         f = call.func
         if isinstance(f, ast.Name):
             h = self.helpers.get((None, f.id))
+            if h is None and self.cur_fn is not None:
+                # a local that only ever names one private helper: `compute = Cls.__helper` ... `compute(x)`
+                ds = [a.value for a in ast.walk(self.cur_fn) if isinstance(a, ast.Assign) and any(isinstance(t, ast.Name) and t.id == f.id for t in a.targets)]
+                stores = sum(1 for x in ast.walk(self.cur_fn) if isinstance(x, ast.Name) and x.id == f.id and isinstance(x.ctx, ast.Store))
+                is_param = any(a.arg == f.id for a in self.cur_fn.args.args + self.cur_fn.args.posonlyargs + self.cur_fn.args.kwonlyargs)
+                if len(ds) == 1 and stores == 1 and not is_param and isinstance(ds[0], (ast.Name, ast.Attribute)):
+                    fake = ast.copy_location(ast.Call(func=ds[0], args=call.args, keywords=call.keywords), call)
+                    if not (isinstance(ds[0], ast.Name) and ds[0].id == f.id):
+                        return self.resolve(fake, cls)
             return (h, None) if h else None
         if isinstance(f, ast.Attribute):
             name = f.attr
             cands = [h for (c, n), h in self.helpers.items() if c is not None and n in (name, _unmangle(name, c))]
+            if len(cands) > 1:
+                # the same private name in several classes: the receiver says which one
+                rv = f.value
+                want = rv.id if isinstance(rv, ast.Name) and rv.id not in ("self", "cls") else cls
+                cands = [h for h in cands if h.cls == want]
             if len(cands) != 1:
                 return None
             h = cands[0]
@@ -232,7 +311,7 @@ class _Inliner:
             return None
         return None
 
-    def expand(self, call: ast.Call, h: _Helper, recv: Optional[ast.expr]) -> Tuple[List[ast.stmt], ast.expr]:
+    def expand(self, call: ast.Call, h: _Helper, recv: Optional[ast.expr], tail: bool = False) -> Tuple[List[ast.stmt], ast.expr]:
         if not h.supported or h.calls_itself:
             raise _Unsupported("shape")
         self.counter += 1
@@ -268,8 +347,12 @@ class _Inliner:
                 bound[p] = h.defaults[p]
         reassigned = {x.id for x in ast.walk(h.fn) if isinstance(x, ast.Name) and isinstance(x.ctx, ast.Store)}
         locals_ = _local_names(h.fn)
+        lambdas: Dict[str, ast.Lambda] = {}
         for p in params:
             a = bound[p]
+            if isinstance(a, ast.Lambda) and p not in reassigned and _only_called(h.fn, p, a):
+                lambdas[p] = a
+                continue
             if _simple_arg(a) and p not in reassigned:
                 mapping[p] = a
             else:
@@ -278,11 +361,26 @@ class _Inliner:
         body = [copy.deepcopy(s) for s in h.fn.body]
         if body and isinstance(body[0], ast.Expr) and isinstance(body[0].value, ast.Constant) and isinstance(body[0].value.value, str):
             body = body[1:]
+        if tail:
+            # `return helper(...)`: the returns of the helper are the returns of the caller, whatever its control flow
+            if any(isinstance(x, (ast.Yield, ast.YieldFrom)) for b in body for x in ast.walk(b)):
+                raise _Unsupported("generator")
+            rn = _Renamer(mapping, prefix, locals_, lambdas)
+            stmts = pre + [rn.visit(b) for b in body]
+            if not _definitely_returns(stmts):
+                stmts.append(ast.copy_location(ast.Return(value=ast.Constant(value=None)), call))
+            for st_ in stmts:
+                for x in ast.walk(st_):
+                    if hasattr(x, "col_offset"):
+                        x.col_offset = getattr(x, "col_offset", 0) + 1000 * k
+                        if getattr(x, "end_col_offset", None) is not None:
+                            x.end_col_offset += 1000 * k
+            return stmts, None
         ret = "ret"
         locals_.add(ret)
         has_ret = _contains_return(body)
         new_body, definitely = _elim_returns(body, ret)
-        rn = _Renamer(mapping, prefix, locals_)
+        rn = _Renamer(mapping, prefix, locals_, lambdas)
         new_body = [rn.visit(s) for s in new_body]
         stmts = pre + new_body
         if has_ret and not definitely:
@@ -318,6 +416,21 @@ class _Inliner:
                 for h in st.handlers:
                     h.body, ch = self.rewrite_block(h.body, cls, owner)
                     changed |= ch
+            if isinstance(st, ast.Return) and isinstance(st.value, ast.Call):
+                res = self.resolve(st.value, cls)
+                if res is not None and res[0].fn.name != owner and not any(self.resolve(c, cls) for a in list(st.value.args) + [kw.value for kw in st.value.keywords] for c in ast.walk(a) if isinstance(c, ast.Call)):
+                    h, recv = res
+                    try:
+                        if not h.supported or h.calls_itself:
+                            raise _Unsupported("shape")
+                        body_, _ = self.expand(st.value, h, recv, tail=True)
+                        h.used += 1
+                        h.inlined += 1
+                        out += body_
+                        changed = True
+                        continue
+                    except _Unsupported:
+                        pass
             hoisted: List[ast.stmt] = []
             for holder, attr in self.call_slots(st):
                 call = getattr(holder, attr) if not isinstance(attr, tuple) else getattr(holder, attr[0])[attr[1]]
@@ -410,13 +523,16 @@ class _Inliner:
                 h.used = h.inlined = 0
             for st in self.tree.body:
                 if isinstance(st, ast.FunctionDef):
+                    self.cur_fn = st
                     st.body, ch = self.rewrite_block(st.body, None, st.name)
                     changed |= ch
                 elif isinstance(st, ast.ClassDef):
                     for cs in st.body:
                         if isinstance(cs, ast.FunctionDef):
+                            self.cur_fn = cs
                             cs.body, ch = self.rewrite_block(cs.body, st.name, cs.name)
                             changed |= ch
+                self.cur_fn = None
             changed_any |= changed
             if not changed:
                 break
